@@ -39,6 +39,8 @@ pub struct Knobs {
     pub classes_only: bool,
     /// link targets with wide (CJK) and combining characters, of various lengths (the footnote list wraps them)
     pub exotic_hrefs: bool,
+    /// inline elements (em, strong, a, code, span ...) inside `<pre>`, with text after their closing tags
+    pub pre_inline: bool,
 }
 
 impl Knobs {
@@ -72,6 +74,7 @@ impl Knobs {
             digits: true,
             classes_only: false,
             exotic_hrefs: false,
+            pre_inline: false,
         }
     }
     pub fn no_css(mut self) -> Knobs {
@@ -365,7 +368,15 @@ impl<'a> Gen<'a> {
                 let ida = self.idattr();
                 out.push_str(&format!("<pre{ida}>"));
                 for _ in 0..1 + self.r.b(3) {
-                    self.text(out);
+                    if self.k.pre_inline && self.r.p(55) {
+                        self.inline(2, out);
+                        if self.r.p(70) {
+                            out.push(' ');
+                            self.text(out);
+                        }
+                    } else {
+                        self.text(out);
+                    }
                     out.push_str(match self.r.b(3) {
                         0 => "\n",
                         1 => "\t",
